@@ -56,3 +56,33 @@ def cleanup(d: Path) -> None:
     if os.environ.get("BBV_KEEP"):
         return
     shutil.rmtree(d, ignore_errors=True)
+
+
+class time_limit:
+    """Wall-clock limit for calls into the library made in a worker process (SIGALRM; main thread of that process only):
+    a change that makes a call practically endless (a step split into 1e9 sub-steps) is reported by the caller as a failed run
+    instead of hanging the check.  The limits used are hundreds of times what the unchanged library needs."""
+
+    def __init__(self, seconds: int, what: str = "the library call"):
+        self.seconds, self.what = int(seconds), what
+
+    def _fire(self, *_):
+        raise TimeoutError(f"{self.what} did not return within {self.seconds} s")
+
+    def __enter__(self):
+        import signal  # noqa: PLC0415
+        import threading  # noqa: PLC0415
+
+        self.active = threading.current_thread() is threading.main_thread() and hasattr(signal, "SIGALRM")
+        if self.active:
+            self.old = signal.signal(signal.SIGALRM, self._fire)
+            signal.alarm(self.seconds)
+        return self
+
+    def __exit__(self, *exc):
+        if self.active:
+            import signal  # noqa: PLC0415
+
+            signal.alarm(0)
+            signal.signal(signal.SIGALRM, self.old)
+        return False
